@@ -1,4 +1,4 @@
-\* EXPECTED TO BE VIOLATED: a recorded valid counterexample decides the verdict
+\* RESIDUAL, EXPECTED TO BE VIOLATED: a confirmation query cancelled in flight by the early-exit shutdown may raise OSError out of run_test (modelled, not forced by the harness)
 SPECIFICATION Spec
 CONSTANTS
   MinPaths = 1
@@ -16,4 +16,7 @@ CONSTANTS
   RecordHist = FALSE
   Canon = FALSE
   Coarse = FALSE
-INVARIANTS NoLostCounterexampleStrict
+  MutPrecedence = FALSE
+  MutNoCatch = FALSE
+  KilledMayRaise = TRUE
+INVARIANTS OrderIndependence
